@@ -1011,9 +1011,13 @@ def monitor_start() -> None:
 _NO_RAW = object()
 
 
-def payload_dict(module: Optional[str], name: str, args: List[Any], nest: int, where: str, raw: Any = _NO_RAW) -> Dict[str, Any]:
+def payload_dict(module: Optional[str], name: str, args: List[Any], nest: int, where: str, raw: Any = _NO_RAW,
+                 inner: Optional[str] = None) -> Dict[str, Any]:
     # raw: the stored "arguments" are not a list at all (a scalar, a bare string, an object)
     p: Dict[str, Any] = {"exc_type": name, "exc_message": list(args) if raw is _NO_RAW else raw, "exc_module": module}
+    if inner:
+        # the claimed error has a (benign) cause / context of its own
+        p["exc_" + inner] = {"exc_type": "ValueError", "exc_message": ["root cause"], "exc_module": "builtins"}
     for i in range(nest):
         outer: Dict[str, Any] = {"exc_type": "ValueError", "exc_message": [f"level {i}"], "exc_module": "builtins"}
         key = "exc_cause" if (where == "cause" or (where == "mixed" and i % 2 == 0)) else "exc_context"
@@ -1096,7 +1100,8 @@ def run_c20(spec: Dict[str, Any]) -> "tuple[List[Violation], Dict[str, Any]]":
             pass
     obs["preludes"] = len(spec.get("prelude", []))
     for entry in spec["entries"]:
-        p = payload_dict(module, name, args, spec["nest"], spec["where"], spec["raw_args"] if "raw_args" in spec else _NO_RAW)
+        p = payload_dict(module, name, args, spec["nest"], spec["where"], spec["raw_args"] if "raw_args" in spec else _NO_RAW,
+                         spec.get("inner_link"))
         del TRAP_LOG[:]
         del CALLS[:]
         del IMPORTS[:]
@@ -1299,6 +1304,8 @@ class C20(Check):
                 parts = joined.split(".")
                 alts: List[Any] = [[None, joined]] + [[".".join(parts[:j]), ".".join(parts[j:])] for j in range(1, len(parts))]
                 case["prelude"] = [a for a in alts if a != [module, name]][:4]
+            if rng.random() < 0.2:
+                case["inner_link"] = rng.choice(["cause", "context"])
             if rng.random() < 0.08:
                 # stored "arguments" that are not a sequence
                 case["raw_args"] = rng.choice([5, 1.5, True, None, "bare message", {"a": 1}, 0, ""])
